@@ -13,6 +13,10 @@ fn main() {
         Some("gen-corpus") => scv::selftest::gen_corpus(&args[1..]),
         Some("gen-work-corpus") => scv::selftest::gen_work_corpus(&args[1..]),
         Some("fresh") => scv::selftest::fresh(&args[1..]),
+        Some("fuzz-seeds") => scv::fuzzcli::seeds(&args[1..]),
+        Some("fuzz-dict") => scv::fuzzcli::dict(&args[1..]),
+        Some("fuzz-decode") => scv::fuzzcli::decode(&args[1..]),
+        Some("fuzz-confirm") => scv::fuzzcli::confirm(&args[1..]),
         Some("probe") => scv::selftest::probe(&args[1..]),
         _ => {
             eprintln!("usage: scv check <ID> [--tier quick|thorough] | replay <path> | selftest | probe <evaluator> <expr> [placeholder]");
